@@ -1,10 +1,10 @@
 (* Properties/C08.v -- "Declarations mean the same however they are spelled;
-   bad ones are dropped alone".  Statements only; proofs in Css/DeclProofs.v
-   and Css/VarSubstProofs.v.  The leaf validators (`validate`), ParseColor
+   bad ones are dropped alone".  Statements only; proofs in Css/C08DeclProofs.v
+   and Css/C08VarSubstProofs.v.  The leaf validators (`validate`), ParseColor
    (`pc`) and the non-modelled shorthand expanders (`oe`) are universally
    quantified: every theorem holds whatever they compute. *)
 From Coq Require Import List NArith ZArith QArith Bool.
-From Verif Require Import Base.GoSem Css.DeclTok Css.Decl Css.VarSubst Css.DeclSpec Css.DeclProofs Css.VarSubstProofs.
+From Verif Require Import Base.GoSem Css.DeclTok Css.Decl Css.VarSubst Css.C08Spec Css.C08DeclProofs Css.C08VarSubstProofs Css.C08SpellingProofs.
 Import ListNotations.
 Open Scope nat_scope.
 
@@ -64,9 +64,36 @@ Theorem C08_modelled_validators_read_projection :
 Proof. exact modelled_validators_read_projection. Qed.
 Print Assumptions C08_modelled_validators_read_projection.
 
-(* full statement (pipeline level, every validator reading only the projection): not proved;
-   the four theorems above are its proved parts (`_partial`), the rest is the metamorphic test *)
-Definition C08_spelling_irrelevant_statement : Prop := spelling_irrelevant_statement.
+(* pipeline level, full strength: whatever the validators compute, as long as
+   they read only the projection of the (whitespace-free) component values
+   they are handed, two spellings of a declaration -- ASCII case of the
+   property name, of keywords, units and function names; comments and
+   whitespace anywhere between component values, at any depth -- yield the
+   same declarations (pending var() token lists compared by projection) *)
+Theorem C08_spelling_irrelevant :
+  forall known validate pc oe,
+    reads_projection validate -> (forall t, pc (proj_tok t) = pc t) ->
+    (forall n e, oe n = Some e -> forall ts ts', clean ts -> clean ts' -> proj_toks ts = proj_toks ts' ->
+                                 option_map (map (fun p => mkNP (np_name p) (proj_value (np_value p)) (np_short p))) (e ts)
+                                 = option_map (map (fun p => mkNP (np_name p) (proj_value (np_value p)) (np_short p))) (e ts')) ->
+    forall n n' v v' i,
+      (is_custom_name n = false /\ is_custom_name n' = false /\ same_word n n') \/ n = n' ->
+      sv_toks v v' ->
+      map proj_odecl (preprocess_one known validate pc oe (RDecl n v i))
+      = map proj_odecl (preprocess_one known validate pc oe (RDecl n' v' i)).
+Proof. exact spelling_irrelevant_holds. Qed.
+Print Assumptions C08_spelling_irrelevant.
+
+(* the hypothesis holds for the modelled validators (the other ~290 are tested metamorphically) *)
+Theorem C08_modelled_validators_reads_projection :
+  forall pc, (forall t, pc (proj_tok t) = pc t) -> reads_projection (validate_modelled pc).
+Proof. exact modelled_validators_reads_projection. Qed.
+Print Assumptions C08_modelled_validators_reads_projection.
+
+(* var() detection itself ignores spelling *)
+Theorem C08_has_var_projection : forall t, has_var (proj_tok t) = has_var t.
+Proof. exact has_var_proj. Qed.
+Print Assumptions C08_has_var_projection.
 
 (* ---- shorthands ---- *)
 
@@ -227,8 +254,14 @@ Module Examples.
 
   Example ex_names : four_names (s "border-color")
                      = [s "border-top-color"; s "border-right-color"; s "border-bottom-color"; s "border-left-color"]
-                     /\ four_names (s "margin") = [s "margin-top"; s "margin-right"; s "margin-bottom"; s "margin-left"].
-  Proof. split; vm_compute; reflexivity. Qed.
+                     /\ four_names (s "margin") = [s "margin-top"; s "margin-right"; s "margin-bottom"; s "margin-left"]
+                     /\ four_names (s "padding") = [s "padding-top"; s "padding-right"; s "padding-bottom"; s "padding-left"]
+                     /\ four_names (s "bleed") = [s "bleed-top"; s "bleed-right"; s "bleed-bottom"; s "bleed-left"]
+                     /\ four_names (s "border-style")
+                        = [s "border-top-style"; s "border-right-style"; s "border-bottom-style"; s "border-left-style"]
+                     /\ four_names (s "border-width")
+                        = [s "border-top-width"; s "border-right-width"; s "border-bottom-width"; s "border-left-width"].
+  Proof. repeat split; vm_compute; reflexivity. Qed.
 
   (* a 2-cycle is reported, a chain is substituted *)
   Definition v (n : string) : tok := TFunc (s "var") [TIdent (s n)].
